@@ -29,6 +29,9 @@ PROP = "C13"
 FEATURE_SETS = ("none",)
 ALPHA = [0x20, 0x0A, 0x61, 0x62, 0xC3, 0xA9]
 FILLER = "aaaa bbbb cccc dddd eeee ffff gggg hhhh iiii jjjj kk"
+# a word that fits on no line (52 > 48 + 2), in the middle of ordinary words
+FILLER_LONG = "aaaa bbbb " + "c" * 52 + " dddd eeee"
+FILLERS = [FILLER, FILLER_LONG]
 
 TEMPLATES = dict(C16.TEMPLATES)
 TEMPLATES["deflist2"] = [("S", "DefinitionList"), ("S", "ItemTerm"), ("T", "Literal"), ("T", "Metavar"), ("E", "ItemTerm"), ("S", "ItemBody"), ("T", "Text"), ("E", "ItemBody"),
@@ -283,13 +286,14 @@ def make_jobs(tier, seed, build):
         t = TEMPLATES[tname]
         nt = sum(1 for k, _ in t if k == "T")
         for lens in itertools.product(range(0, 3), repeat=nt):
-            ls = list(lens)
-            ls[fixed_ix] = len(FILLER)
-            if sum(l for i, l in enumerate(ls) if i != fixed_ix) > (2 if tier == "quick" else 3):
-                continue
             if lens[fixed_ix] != 0:
                 continue
-            jobs.append({"id": "width:%s:%s" % (tname, ",".join(map(str, ls))), "kind": "width", "template": tname, "lens": ls, "fixed": {str(fixed_ix): FILLER}})
+            for fi, filler in enumerate(FILLERS):
+                ls = list(lens)
+                ls[fixed_ix] = len(filler)
+                if sum(l for i, l in enumerate(ls) if i != fixed_ix) > ((2 if tier == "quick" else 3) if fi == 0 else (1 if tier == "quick" else 2)):
+                    continue
+                jobs.append({"id": "width:%s:%s:f%d" % (tname, ",".join(map(str, ls)), fi), "kind": "width", "template": tname, "lens": ls, "fixed": {str(fixed_ix): filler}})
     return jobs
 
 
@@ -333,7 +337,7 @@ def finish(results, jobs, build, out, tier, seed, wall):
         "solver_time_s": st["solver_s"],
         "obligations": sum(r.get("obligations", 0) for r in results),
         "bounds": {"content": "8 block templates, text bytes over {space, \\\\n, a, b, é}, total symbolic text <= %d bytes, widths 1..=16 (symbolic) and 100, full and short" % total_len(tier),
-                   "width": "6 templates with a %d-column filler text + <= %d symbolic bytes, max_width symbolic in 40..=48" % (len(FILLER), 2 if tier == "quick" else 3)},
+                   "width": "6 templates with a concrete filler text (%d columns of short words; %d columns with one 52-column unbreakable word in the middle) + <= %d symbolic bytes, max_width symbolic in 40..=48" % (len(FILLER), len(FILLER_LONG), 2 if tier == "quick" else 3)},
         "jobs": {k: len([j for j in jobs if j["kind"] == k]) for k in ("content", "width")},
         "functions_encoded": sorted(fw.merge_counts(results, "fn_hits")),
         "models_used": fw.merge_counts(results, "models_used"),
